@@ -39,7 +39,7 @@ LEVEL = "fault_enumeration"
 TECHNIQUE = "fault injection at every event-loop iteration of a simulated tunnel session (single events enumerated, pairs sampled / adjacent pairs enumerated), real UDP/TCP/secure tunnel on a virtual-time loop vs simulated gateway; wire-log + callback oracle; model-based test of ConnectionManager"
 RULE = (
     "case = (transport udp|tcp|secure, auto_reconnect, DisconnectResponse behaviour ok|0.5 s late|lost, [(event kind, loop iteration)]); event kinds: hb_drop, hb_err (next 4 ConnectionStateRequests unanswered / E_CONNECTION_ID), "
-    "srv_disc_own / srv_disc_foreign (server DisconnectRequest), send_fail (a send started at that iteration, its ACKs dropped on UDP), transport_loss (TCP/secure), user_disc (user calls disconnect()), "
+    "srv_disc_own / srv_disc_foreign (server DisconnectRequest), send_fail (a send started at that iteration, its ACKs dropped on UDP), transport_loss (TCP/secure), user_disc (user calls disconnect()), user_disc_hs (the user's disconnect() runs first in the loop iteration after the next ConnectResponse arrived, before connect() is resumed), "
     "connect_drop / connect_err / open_refuse (next connect attempts fail); every kind at every iteration 1..N of the fault-free session (N learned by running it) for all 6 variants, "
     "pairs of events sampled by Hypothesis (biased to adjacent iterations), all pairs of the instantaneous kinds <= 2 iterations apart enumerated (quick; thorough: all kinds, <= 6 apart, x 3 DisconnectResponse behaviours), plus loss x loss/user_disc pairs up to 12 (16) apart with auto_reconnect; triples on the auto-reconnect variants: loss #1 at every iteration, loss #2 in / next to the iteration in which the reconnect started by #1 finishes (learned by running #1 alone), loss #3 1..5 (8) iterations later, optionally user_disc 6 iterations after that, plus Hypothesis-sampled triples; the same session with a main loop registered on the ConnectionManager (register_loop(): reports applied one iteration later): every single event and every pair of instantaneous kinds at most 1 iteration apart, auto_reconnect on; interface level (xknx/io/knxip_interface.py): KNXIPInterface.start() as a task for UDP / TCP / secure tunnelling configs (auto_reconnect on/off) against a gateway whose ConnectResponse is prompt / 0.3 s late / missing, stop() at every loop iteration of that run (before, while and after the connect is answered, during the session and the heartbeat); ConnectionManager (with and without register_loop()): op sequences report / burst of 2-4 reports issued back-to-back without yielding to the loop (AA, ABA, ABB, ... and random) / register / unregister / self-unregistering callback vs a dedup model over the reports in issue order, every burst of 1..4 reports from every state enumerated; "
     "non-trivial = the injected event changed the wire log relative to the fault-free session (a fault really happened); distinct by case"
@@ -60,7 +60,7 @@ from xknx.io import const as _const
 
 HB = float(_const.HEARTBEAT_RATE)
 VARIANTS = [(t, ar) for t in ("udp", "tcp", "secure") for ar in (True, False)]
-KINDS_ALL = ["hb_drop", "hb_err", "srv_disc_own", "srv_disc_foreign", "send_fail", "transport_loss", "user_disc", "connect_drop", "connect_err", "open_refuse"]
+KINDS_ALL = ["hb_drop", "hb_err", "srv_disc_own", "srv_disc_foreign", "send_fail", "transport_loss", "user_disc", "user_disc_hs", "connect_drop", "connect_err", "open_refuse"]
 INSTANT = ["srv_disc_own", "srv_disc_foreign", "send_fail", "transport_loss", "user_disc"]
 TAIL = 300.0
 USER_ID, USER_PW, DEV_PW = 2, "user-secret", "device-secret"
@@ -361,6 +361,22 @@ def execute(case):
                 else:
                     user_gone[0] = True
                     spawned.append(loop.create_task(user_disconnect()))
+            elif kind == "user_disc_hs":
+                # the user's disconnect() runs FIRST in the loop iteration after the next ConnectResponse arrived, i.e. after
+                # the response was received and before the connect() coroutine is resumed (the user's task was woken up
+                # earlier in the same iteration than the response datagram was read)
+                if user_gone[0] or gw.before_handshake is not None:
+                    gw.mark("noop:user_disc_hs", "mark")
+                else:
+                    go = loop.create_future()
+
+                    async def _user() -> None:
+                        await go
+                        if not user_gone[0]:
+                            await user_disconnect()
+
+                    spawned.append(loop.create_task(_user()))
+                    gw.before_handshake = lambda _gw: (None if go.done() else go.set_result(None))
             elif kind == "connect_drop":
                 gw.connect_plan = ["drop"]
             elif kind == "connect_err":
@@ -495,9 +511,11 @@ def judge(ctx, case, obs) -> None:
         if s == "CONNECTED":
             ok = any(e["dir"] == "s2c" and e["kind"] == "ConnectResponse" and e.get("handshake") for e in log[prev_idx + 1 : idx])
             if not ok:
-                ctx.fail("C25:connected-reported-without-handshake", case, f"CONNECTED reported at t={log[idx]['t']} with no Connect handshake delivered since the previous report; reports {s0}")
+                ctx.fail("C25:connected-reported-without-handshake", case, f"CONNECTED reported at t={log[idx]['t']} with no Connect handshake delivered since the previous CONNECTED report; reports {s0}")
                 break
-        prev_idx = idx
+            # every CONNECTED report is backed by a handshake of its own; a DISCONNECTED reported between the arrival of the
+            # ConnectResponse and the resumption of connect() (user disconnect in that very iteration) does not use it up
+            prev_idx = idx
     if final["connected_event"] != (final["state"] == "CONNECTED"):
         ctx.fail("C25:connected-event-inconsistent", case, f"final={final}")
     if (s0[-1] if s0 else "DISCONNECTED") != final["state"]:
@@ -1078,6 +1096,8 @@ def run(ctx) -> None:
     # second event inside / at the end of the reconnect started by the first one (a reconnect takes 4..12 iterations)
     losses = ["srv_disc_own", "transport_loss"] if ctx.quick else ["srv_disc_own", "srv_disc_foreign", "transport_loss"]
     jobs += [("adjacent", t, True, ka, kb, ctx.n(12, 16), "ok", ctx.n(3, 7)) for t in ("udp", "tcp", "secure") for ka in losses for kb in [*losses, "user_disc"] if ka in kinds_for(t) and kb in kinds_for(t)]
+    # user_disc_hs armed first (any earlier iteration), then a loss: the disconnect lands right behind the ConnectResponse of the reconnect
+    jobs += [("adjacent", t, True, "user_disc_hs", kb, ctx.n(12, 16), "ok", 0) for t in ("udp", "tcp", "secure") for kb in losses if kb in kinds_for(t)]
     # three losses: #2 inside the loop iteration in which the reconnect started by #1 finishes, #3 while the next one runs
     for t in ("udp", "tcp", "secure"):
         N, _ = baseline(t, True)
